@@ -80,7 +80,7 @@ CHECKS = {
     engine="hypothesis",
     technique="metamorphic pairs (T1, T2=T1+delta) of live manifests expanded by the independent MPD reader; MPD patch applied with an independent RFC 5261 <replace> applier and compared with the full manifest of the same instant",
     text="Search, not proof: 1.5k/100k pairs per tier over timeline-capable templates, fixture and synthetic streams, deltas from 1 ms to 3 days in classes (< segment, < loop, < day, >= day), half of them with patches.",
-    note=SHIMS + ". One open known finding (C09-K1: first timeline entry can step back while the depth is still growing).",
+    note=SHIMS + ". Two open known findings (C09-K1: first / last timeline entry can step back while the depth of a young stream is still growing; C09-K2: the C08-K1 publishTime decrease).",
     design_ref="DESIGN.md section 4, C09"),
  "C12": dict(
     engine="hypothesis",
@@ -104,7 +104,7 @@ CHECKS = {
     engine="enumeration + hypothesis",
     technique="two-sided: (accept) generated (stream, template, mode, DRM, option vector, clock) sessions of the bundled validator driven in-process through a recording HTTP adapter with an inline worker pool and a patched asyncio.sleep that advances the harness clock; oracle: terminates within a step budget and reports nothing. (detect) differential two-pass sessions with the identical clock script where exactly one response the validator really read is rewritten by an independent corruption writer (isobox/struct/lxml); oracle: >= 1 error located at the corrupted element by an lxml line-range rule independent of the validator",
     text="Search, not proof: every (template, mode) x {default, drm=all, timeline} on the bbb fixture with every corruption kind twice (54 sweep cases, both tiers); 640/30k accept sessions and 520/25k detect sessions (3 corruptions each) per tier over fixture and synthetic streams. Catalogue: tfdt shift, mfhd sequence number, trun data_offset outside mdat, saio offset, mandatory init box removed, SegmentTimeline gap/overlap, mandatory MPD attribute removed, availabilityStartTime changed across a refresh.",
-    note=SHIMS + ". Twelve open known findings (C18-K1..K12: validator gaps and false positives, three of them rooted in recorded server findings). Not covered: multi-period routes, patch documents as corruption targets.",
+    note=SHIMS + ". Sixteen open known findings (C18-K1..K16: validator gaps and false positives, five of them rooted in recorded server findings; each signature carries the context it is confined to). Not covered: multi-period routes, patch documents as corruption targets.",
     design_ref="DESIGN.md section 4, C18"),
  "C15": dict(
     engine="enumeration + hypothesis (token sequences)",
